@@ -89,6 +89,10 @@ def build_config(scn, workdir=None):
            'default_data_file': os.path.join(os.path.abspath(workdir), 't.data') if workdir else 't.data',
            'benchmark_suites': suites, 'executors': execs,
            'experiments': {'T': {'executions': [{'E%d%s' % (x, nsfx): {'suites': ss}} for x, ss in sorted(per_exe.items())]}}}
+    if scn.get('two_experiments'):
+        # the same runs belong to a second experiment that shares the data file; the session runs `all`
+        import copy
+        cfg['experiments']['T2'] = copy.deepcopy(cfg['experiments']['T'])
     return cfg
 
 
@@ -342,7 +346,7 @@ def run_session(workdir, scn, sess, timeout_guard=None):
                                  for r in runs)
         return orig(self, runs, *a, **kw)
 
-    argv = [conf] + list(sess.get('argv') or [])
+    argv = [conf] + (['all'] if scn.get('two_experiments') else []) + list(sess.get('argv') or [])
     if sess.get('sched') and sess['sched'] != 'batch':
         argv += ['-s', sess['sched']]
     if sess.get('faulty'):
